@@ -1620,6 +1620,7 @@ package http2
 //@ # synthetic closure writeRequest$2, are the loop's invariant)
 //@ # the stream counts as open only once its HEADERS frame has been written
 //@ ensures counted: c.openStreams == old(c.openStreams) || c.openStreams == old(c.openStreams) + 1
+//@ ensures enc: c.enc == old(c.enc) && hpackOK(c.enc) && c.bw == old(c.bw)
 //@ ensures refused: old(c.openStreams) >= old(c.maxStreams) ==> r0 != nil && c.openStreams == old(c.openStreams) && c.nextID == old(c.nextID)
 
 // ---- client: frames for the connection itself ----
@@ -1676,3 +1677,42 @@ package http2
 //@ ghost waiting = true
 //@ ghost@ret:(*Conn).hasReqsUpTo#1 waiting = ret0
 //@ ensures stop: r0 && local(err) == nil ==> c.state == 1 && !waiting
+
+// ---- client: the write loop and how it ends ----
+
+//@ # requests queued for the write loop carry the caller's request and response; frames queued for it are complete
+//@ # (neither channel is ever closed: the loops are stopped through c.done)
+//@ neverclosed Conn.in
+//@ neverclosed Conn.out
+//@ chan Conn.in: self != nil && self.Request != nil && self.Response != nil
+//@ chan Conn.out: self != nil && self.fr != nil && frameNonNil(self.fr) && frameSep(self.fr, self.payload)
+
+//@ func (*Conn).runWriteLoop
+//@ props C11
+//@ requires recv: c != nil && c.bw != nil && c.enc != nil && hpackOK(c.enc)
+//@ opt noframe=true
+//@ opt noovf=true
+//@ loop 0: invariant ptrs: c != nil && c.bw != nil && c.enc != nil && hpackOK(c.enc)
+//@ # how the loop can end: asked to (nil), a write failed (WriteError), or the server stopped answering pings. None of these
+//@ # is one of the errors that mean "the request did not reach the server" (see retryable)
+//@ ensures kind: r0 == nil || r0 == ErrTimeout || typeis(r0, WriteError)
+
+//@ func (*Conn).takeAllReqs
+//@ props C11
+//@ requires recv: c != nil
+//@ opt noframe=true
+//@ opt noovf=true
+//@ modifies nothing
+//@ loop 0: invariant nn: forall(i, 0, len(out), out[i] != nil && out[i].Request != nil && out[i].Response != nil)
+//@ ensures nn: forall(i, 0, len(r0), r0[i] != nil && r0[i].Request != nil && r0[i].Response != nil)
+
+//@ func (*Conn).writeLoop
+//@ props C11
+//@ requires recv: c != nil && c.bw != nil && c.enc != nil && hpackOK(c.enc)
+//@ opt noframe=true
+//@ opt noovf=true
+//@ # A request is reported retryable only when the server cannot have processed it (see retryable: ErrConnectionClosed,
+//@ # ErrNotAvailableStreams, ErrNoMoreStreamIDs). The requests still in the table when the loop ends were handed to the
+//@ # connection - their HEADERS may be on the wire - so what they are resolved with is the reason the loop ended, or
+//@ # "unexpected EOF", never one of those three
+//@ assert@call:(*Ctx).resolve#1 inflight: arg1 != nil && arg1 != ErrConnectionClosed && arg1 != ErrNotAvailableStreams && arg1 != ErrNoMoreStreamIDs
